@@ -157,3 +157,19 @@ Proof. exact: pb_qr_adjoint. Qed.
 Print Assumptions C03_pb_lu_adjoint.
 Print Assumptions C03_pb_cholesky_adjoint.
 Print Assumptions C03_pb_qr_adjoint.
+
+(* ---- reverse rule of the symmetric eigenvalue decomposition with distinct eigenvalues (MatPullbackEigh.v; _eigh_pullback: H[m,n] =
+   1/(lam_n - lam_m), Abar = Q (diag(lambar) + H .* (Q^T Qbar)) Q^T): the adjoint for ALL tangents (dA, dQ, dLam) satisfying the
+   linearised eigen-equation, Q^T dQ antisymmetric, dLam diagonal; and those constraints determine dQ and dLam from dA. *)
+From AlgoV Require Import Eigh MatPullbackEigh.
+Theorem C03_pb_eigh_adjoint (K : fieldType) (n : nat) : (2%:R : K) != 0 ->
+  forall A Q Lam H : 'M[K]_n,
+  Q^T *m Q = 1%:M -> Q *m Q^T = 1%:M -> is_diagM Lam -> A *m Q = Q *m Lam ->
+  (forall i j, i != j -> H i j * (Lam j j - Lam i i) = 1) -> (forall i, H i i = 0) ->
+  forall dA dQ dLam : 'M[K]_n,
+  (Q^T *m dQ)^T = - (Q^T *m dQ) -> is_diagM dLam ->
+  dA *m Q + A *m dQ = dQ *m Lam + Q *m dLam ->
+  forall Lambar Qbar : 'M[K]_n, is_diagM Lambar ->
+  ip Lambar dLam + ip Qbar dQ = ip (Q *m (Lambar + hadM H (Q^T *m Qbar)) *m Q^T) dA.
+Proof. exact: pb_eigh_adjoint. Qed.
+Print Assumptions C03_pb_eigh_adjoint.
